@@ -269,7 +269,7 @@ def must_store_rule(ctx, repo, rule):
 
 
 def duration_rule(ctx, repo, rule):
-    ctx.rule(rule, "both keyring allocations compute the duration by the same product (parameter value at index 0 x timescale x scale factor) and pass (duration, dt) to the row-count helper in that order")
+    ctx.rule(rule, "both keyring allocations compute the duration by the same product - the parameter value at index 0 x its timescale, where the value already carries the calibration scale factor (Model.build stores `interpolate(...) * par.scale_factor`, Parameter.update stores `scale_factor * fcn(...)`), so the scale factor may not be multiplied in again - and pass (duration, dt) to the row-count helper in that order: the duration people actually stay is the duration the result reports")
     polys = []
     for q in ("TimedCompartment.preallocate", "TimedLink.preallocate"):
         fi = repo.func("model", q)
@@ -291,9 +291,10 @@ def duration_rule(ctx, repo, rule):
         ok = bool(calls) and all([ast.unparse(a) for a in c.args] == ["duration", fi.params[2]] and not c.keywords for c in calls)
         ctx.check(ok, rule, fi, enclosing_stmt(calls[0]) if calls else fi.node, "rows = <helper>(duration, dt)", "%s does not compute its number of rows as <row-count helper>(duration, %s)" % (q, fi.params[2]), stmt_text="duration-call:%s" % q)
     if len(polys) == 2:
-        want = {(("P.scale_factor", 1), ("P.timescale", 1), ("P.vals[0]", 1)): 1}
+        want = {(("P.timescale", 1), ("P.vals[0]", 1)): 1}
+        twice = {(("P.scale_factor", 1), ("P.timescale", 1), ("P.vals[0]", 1)): 1}
         for fi, s, p in polys:
-            ctx.check(p == want, rule, fi, s, "duration = value x timescale x scale factor", "`%s` is not parameter.vals[0] * timescale * scale_factor (normal form %s): the compartment and the links through its duration group disagree about, or both miscount, the number of steps a cohort stays" % (norm(s)[:80], A.show(p) if p else "?"))
+            ctx.check(p == want, rule, fi, s, "duration = value x timescale (the value carries the scale factor)", ("`%s` multiplies the parameter's scale factor in a second time (the stored values already include it): with a y-factor y on a timed duration the keyring holds y*y*D/dt rows while the result reports a duration of y*D" % norm(s)[:80]) if p == twice else ("`%s` is not parameter.vals[0] * timescale (normal form %s): the compartment and the links through its duration group no longer agree on how long people stay" % (norm(s)[:80], A.show(p) if p is not None else "?")), stmt_text="duration-product:%s" % fi.qualname)
 
 
 def flush_formula_rule(ctx, repo, rule):
